@@ -45,6 +45,12 @@ inductive Pl where
   /-- a service request / reply over UDP (the rig uses NTP, port 123 both ways) -/
   | dataReq
   | dataRep
+  /-- a request of an application / service identified by `svc` (= its (port, protocol) key in
+  `SoftwareManager.port_protocol_mapping`: DNS, database, HTTP, FTP …); `reply`: the receiving software answers it with a frame
+  (FTP's PORT / STOR are acknowledged through the shared payload object only) -/
+  | appReq (svc : Nat) (reply : Bool)
+  /-- the answer, sent back to the request's source address through the session -/
+  | appRep (svc : Nat)
 deriving DecidableEq, Repr
 
 structure Frame where
@@ -91,6 +97,16 @@ structure Node where
   served : Bool := false
   /-- firewall: the permitted (rule list, payload class) pairs; `none` = a plain router (or host / switch) -/
   fw : Option (List (Nat × Nat)) := none
+  /-- host: the services (`svc` keys) whose server software is installed and running, i.e. what
+  `port_protocol_mapping.get((port, protocol))` finds and answers; router: the services an ACL rule permits -/
+  serves : List Nat := []
+  /-- host: the services from which an answer was received, newest first -/
+  got : List Nat := []
+  /-- host: the requests its server software has processed, newest first (in the code the client reads this off the shared
+  payload object: FTP's status code) -/
+  acks : List Nat := []
+  /-- host: the open ports (`SoftwareManager.get_open_ports`: every running software's port, client or server) -/
+  ports : List Nat := []
 deriving DecidableEq, Repr
 
 inductive Ev
@@ -178,6 +194,27 @@ def plClass : Pl → Nat
   | .echoRep _ => 1
   | .dataReq => 2
   | .dataRep => 2
+  | .appReq svc _ => 3 + svc
+  | .appRep svc => 3 + svc
+
+/-- an application payload (`appReq` / `appRep`). -/
+def Pl.isApp : Pl → Bool
+  | .appReq _ _ => true
+  | .appRep _ => true
+  | _ => false
+
+/-- `HostNode.receive_frame`: a TCP / UDP frame whose destination port is not open on the host is ignored (after the source
+pair was learned, before the session manager sees it).  ARP's and NTP's ports are open on every host. -/
+def portClosed (ports : List Nat) : Pl → Bool
+  | .appReq svc _ => !ports.contains svc
+  | .appRep svc => !ports.contains svc
+  | _ => false
+
+/-- a router's rule list (abstracted) denies an application payload: no rule permits its service. -/
+def appDenied (serves : List Nat) : Pl → Bool
+  | .appReq svc _ => !serves.contains svc
+  | .appRep svc => !serves.contains svc
+  | _ => false
 
 /-- rule lists of a firewall, numbered: 0 external inbound, 1 external outbound, 2 internal inbound,
 3 internal outbound, 4 DMZ inbound, 5 DMZ outbound. -/
@@ -191,7 +228,7 @@ def ingressList (i : Nat) : Option Nat :=
 implicit deny.  Firewall: the arrival port's list, for every frame (no ARP exemption); no entry point for other ports. -/
 def aclDenies (nd : Node) (i : Nat) (pl : Pl) : Bool :=
   match nd.fw with
-  | none => (pl == .dataReq || pl == .dataRep) && !nd.flag
+  | none => ((pl == .dataReq || pl == .dataRep) && !nd.flag) || appDenied nd.serves pl
   | some acl =>
     match ingressList i with
     | some l => !fwPermits acl l pl
@@ -338,6 +375,7 @@ def hostRecv (fuel : Nat) (st : St) (n i : Nat) (f : Frame) : St × Frame :=
     match st.node? n, st.iface? n i with
     | some nd, some ifc =>
       let st := if nd.on then st.modNode n (fun nd => nd.addArp f.srcIp f.srcMac i) else st
+      if portClosed nd.ports f.pl then (st, f) else
       let st := st.emit (.sw n f.id f.dstIp (f.dstMac == bcastMac))
       match f.pl with
       | .arpReq sIp sMac tIp =>
@@ -359,6 +397,16 @@ def hostRecv (fuel : Nat) (st : St) (n i : Nat) (f : Frame) : St × Frame :=
       | .dataRep =>
         -- `NTPClient.receive`: the reply carries the time
         if nd.flag then (st.emit (.raised n), f) else (st.modNode n (fun nd => { nd with served := true }), f)
+      | .appReq svc reply =>
+        -- `SoftwareManager.receive_payload_from_session_manager`: `port_protocol_mapping.get((port, protocol))`; the server
+        -- software answers through the session, i.e. to the frame's source address; nobody there: a warning, nothing sent
+        if nd.serves.contains svc then
+          let st := st.modNode n (fun nd => { nd with acks := svc :: nd.acks })
+          if reply then (sendIcmp fuel st n f.srcIp (.appRep svc), f) else (st, f)
+        else (st, f)
+      | .appRep svc =>
+        -- the client software records the answer
+        (st.modNode n (fun nd => { nd with got := svc :: nd.got }), f)
     | _, _ => (st, f)
 
 /-- `ARP.send_arp_reply`. -/
@@ -548,7 +596,7 @@ def routerRecv (fuel : Nat) (st : St) (n i : Nat) (f : Frame) : St × Frame :=
       match ifaceWithIp nd.ifaces f.dstIp with
       | some own =>
         -- the service port is not open on a router: `process_frame` drops what is addressed to the router itself
-        if f.pl == .dataReq || f.pl == .dataRep then (st, f) else
+        if f.pl == .dataReq || f.pl == .dataRep || f.pl.isApp then (st, f) else
         -- `check_send_frame_to_session_manager`: an own address and (ICMP or the open ARP port)
         let st := st.emit (.sw n f.id f.dstIp (f.dstMac == bcastMac))
         match f.pl with
@@ -567,6 +615,8 @@ def routerRecv (fuel : Nat) (st : St) (n i : Nat) (f : Frame) : St × Frame :=
           else (st.modNode n (fun nd => { nd with replies := bumpReply nd.replies ident }), f)
         | .dataReq => (st, f)
         | .dataRep => (st, f)
+        | .appReq _ _ => (st, f)
+        | .appRep _ => (st, f)
       | none =>
         match nd.fw with
         | none => routerProcess fuel st n i f
@@ -669,6 +719,16 @@ def requestService (fuel : Nat) (st : St) (n : Nat) (server : Ip) : St × Bool :
   match st.node? n with
   | none => (st, false)
   | some nd => (st, nd.served)
+
+/-- one request of an application to the server address (`send_payload_to_session_manager` with a destination port); success iff
+it was answered (only meaningful when `reply`). -/
+def requestApp (fuel : Nat) (st : St) (n : Nat) (server : Ip) (svc : Nat) (reply : Bool) : St × Bool :=
+  if (st.node? n).any (fun nd => !nd.on) then (st, false) else
+  let before := ((st.node? n).map (fun nd => nd.got.length)).getD 0
+  let st := sendIcmp fuel st n server (.appReq svc reply)
+  match st.node? n with
+  | none => (st, false)
+  | some nd => (st, decide (before < nd.got.length))
 
 /-- `IPWiredNetworkInterface.enable` (+ `default_gateway_hello` on hosts). -/
 def enableIface (fuel : Nat) (st : St) (n i : Nat) : St :=
